@@ -49,7 +49,9 @@ func (i dirItem) findDirEntry(item *dirItem, joliet bool) *directoryEntry {
 	identifier := makeIdentifier(item.name, joliet)
 
 	for i := range entries {
-		if entries[i].Identifier == identifier {
+		// different names may be mapped to the same identifier,
+		// so take only directory record which is not linked to its directory yet
+		if entries[i].Identifier == identifier && entries[i].FileFlags&dirFlagDir > 0 && entries[i].ExtentLength == 0 {
 			return &entries[i]
 		}
 	}
